@@ -151,12 +151,16 @@ func atomsFor(test string) []Atom {
 // representative tests whose special atoms are part of the reduced alphabets
 var representative = map[string]bool{"has_any_word": true, "has_number_lt": true, "has_date_eq": true, "has_category": true, "has_group": true, "has_pattern": true}
 
-// tests whose special atoms are also part of the alphabet of case lists of length 3
-var representative3 = map[string]bool{"has_any_word": true, "has_category": true}
+// special atoms that are part of the alphabet of case lists of length 3 (besides every test's
+// literal atom): a miss, an erroring argument, a wrong argument count and the localized variants
+var representative3 = map[string]bool{
+	"has_any_word/miss": true, "has_any_word/argerr": true, "has_any_word/count": true, "has_any_word/loc-tr-hit": true, "has_any_word/loc-len": true,
+	"has_category/argerr": true, "has_category/loc-base-hit": true,
+}
 
 // Alphabets: full = every atom of every registered test; reduced = the literal atom of every test
 // plus every atom of the six representative tests; triple = the literal atom of every test plus
-// every atom of two representative tests; core = six atoms with which the structural product
+// seven special atoms of two representative tests; core = six atoms with which the structural product
 // (categories, exits, waits) is crossed.
 func alphabets() (full, reduced, triple, core []Atom) {
 	for _, t := range Tests() {
@@ -165,7 +169,7 @@ func alphabets() (full, reduced, triple, core []Atom) {
 			if a.Kind == "lit" || representative[t] {
 				reduced = append(reduced, a)
 			}
-			if a.Kind == "lit" || representative3[t] {
+			if a.Kind == "lit" || representative3[t+"/"+a.Kind] {
 				triple = append(triple, a)
 			}
 		}
